@@ -77,18 +77,18 @@ Theorem C18_bridgecall_fail_in_call :
 Proof. exact bce_fail_call. Qed.
 Print Assumptions C18_bridgecall_fail_in_call.
 
-(* THE PROPERTY for the inbound bridge call, unguarded: for every callee, every claim (any tokens, duplicates, any
-   receiver / refund address) and every failure point of the inner step, the transaction succeeds and the state is
-   exactly the designated outcome: claim consumed, one refund record for the deposited amounts, every balance of every
-   holder (users, module accounts, supplies) as before, contract storage untouched *)
+(* THE PROPERTY for the inbound bridge call, unguarded: for every callee (incl. the transfer of msg.Value), every claim
+   (any tokens of any kind — module-owned pair, externally owned pair, the native coin FX — duplicates, any receiver / refund
+   address) and every failure point of the inner step, the transaction succeeds and the state is exactly the designated
+   outcome: claim consumed, one refund record for the deposited amounts, every balance of every holder (users, module
+   accounts, supplies) as before, contract storage untouched *)
 Theorem C18_bridgecall_designated :
-  forall call m s c,
+  forall call m s c s1,
   0 <= receiver m -> 0 <= m_refund m ->
-  (forall t a, In (t, a) (m_tokens m) -> registered s t = true) ->
   (forall t, 0 <= bal s (receiver m, Base, t)) -> (forall t, 0 <= bal s (m_refund m, Base, t)) ->
   timeout_ok s = true -> pendingc s (m_nonce m) = true ->
-  (forall s1, run_steps (map (deposit_one (receiver m)) (m_tokens m)) (del_pending s (m_nonce m)) = Ok s1 ->
-              bridge_call_evm call m (base_coins (m_tokens m)) s1 = Err c) ->
+  run_steps (map (deposit_one (receiver m)) (m_tokens m)) (del_pending s (m_nonce m)) = Ok s1 ->
+  bridge_call_evm call m (base_coins (m_tokens m)) s1 = Err c ->
   exists s', execute_claim_tx call m s = (s', true) /\ bst_eq s' (bc_designated m s).
 Proof. exact bch_designated. Qed.
 Print Assumptions C18_bridgecall_designated.
@@ -113,8 +113,19 @@ Theorem C18_nonvacuous :
   (let (post, ok) := execute_claim_tx wit_call nv_msg2 wit_state_poor in
    ok = true /\ bal post (1, Base, 0) = 0 /\ bal post (2, Base, 1) = 0 /\ evmst post = 0 /\
    map oc_refund (outcalls post) = [2] /\ pendingc post 7 = false) /\
+  (let s := {| bal := fun k => if key_eqb k (ModX, Base, -1) then 100 else if key_eqb k (ModX, Bridge, 5) then 100 else 0;
+               registered := fun _ => true; enabled := fun _ => true;
+               pendingc := fun n => n =? 7; outcalls := []; next_id := 1; timeout_ok := true; evmst := 0;
+               tkind := fun t => if t =? 5 then 1 else if t =? -1 then 2 else 0 |} in
+   let m := {| m_nonce := 7; m_sender := 3; m_refund := 2; m_to := 1; m_to_is_contract := true; m_sendcallto := false;
+               m_tokens := [(5, 6); (-1, 4); (0, 10); (5, 1)] |} in
+   let (post, ok) := execute_claim_tx wit_call m s in
+   ok = true /\ bal post (ModX, Base, -1) = 100 /\ bal post (ModX, Bridge, 5) = 100 /\ bal post (1, Base, -1) = 0 /\
+   bal post (2, Base, 5) = 0 /\ bal post (Supply, Base, 5) = 0 /\ evmst post = 0 /\
+   map oc_tokens (outcalls post) = [[(-1, 4); (0, 10); (5, 7)]]) /\
   (let s := {| bal := fun _ => 0; registered := fun _ => true; enabled := fun t => t =? 0;
-               pendingc := fun n => n =? 7; outcalls := []; next_id := 1; timeout_ok := true; evmst := 0 |} in
+               pendingc := fun n => n =? 7; outcalls := []; next_id := 1; timeout_ok := true; evmst := 0;
+               tkind := fun t => if t =? 5 then 1 else if t =? -1 then 2 else 0 |} in
    let (post, ok) := execute_claim_tx (fun c => Ok c) nv_msg2 s in
    ok = true /\ bal post (1, Erc, 0) = 0 /\ bal post (1, Base, 0) = 0 /\ length (outcalls post) = 1%nat) /\
   try_attestation Z (fun x => Err (x + 1)) (fun x => x + 10) (fun x => x) 0 = (10, false) /\
